@@ -1,9 +1,228 @@
-// ip family — nothing modelled yet (stub)
+// Ip family: IP (IPv4 with its options), IPSecAH, IPSecESP
+// Field names, order and value formats are those of lean/TinsModel/Wire/Ip/{Ip4,Ah}.lean `fields`.
 #pragma once
 #include "wire_iface.h"
+#include <memory>
 namespace wire {
-inline bool ip_dump(const PDU&, std::string&) { return false; }
-inline PDU* ip_mk(const std::string&, const std::vector<std::string>&) { return 0; }
-inline bool ip_apply(PDU&, const std::vector<std::string>&) { return false; }
-inline bool ip_sweep(const PDU&, std::string&) { return false; }
+
+inline unsigned long ip_num(const std::string& s) { return std::stoul(s); }
+inline bool ip_hex(const std::string& s, bytes& b) { return vh::parse_hex(s, b); }
+
+inline bool ip_addr_arg(const std::string& s, IPv4Address& out) {
+    bytes b;
+    if (!vh::parse_hex(s, b) || b.size() != 4) return false;
+    uint32_t v;
+    memcpy(&v, b.data(), 4);            // network order in memory, as IPv4Address keeps it
+    out = IPv4Address(v);
+    return true;
+}
+
+// the option_identifier octet: copied << 7 | op_class << 5 | number
+inline unsigned ip_opt_type(const IP::option_identifier& id) { return (unsigned(id.copied) << 7) | (unsigned(id.op_class) << 5) | unsigned(id.number); }
+
+template <typename F>
+inline std::string ip_typed(F f) {
+    try {
+        return f();
+    } catch (const option_not_found&) {
+        return "nf";
+    } catch (const malformed_option&) {
+        return "malformed_option";
+    }
+}
+
+inline std::string ip_route_str(const IP::generic_route_option_type& r) {
+    std::ostringstream o;
+    o << unsigned(r.pointer) << ":";
+    for (size_t i = 0; i < r.routes.size(); ++i) {
+        if (i) o << ".";
+        o << hex_of(r.routes[i]);
+    }
+    return o.str();
+}
+
+inline bool ip_dump(const PDU& p, std::string& out) {
+    switch (p.pdu_type()) {
+    case PDU::IP: {
+        const IP& ip = static_cast<const IP&>(p);
+        std::string opts;
+        unsigned eol = 0;
+        for (IP::options_type::const_iterator it = ip.options().begin(); it != ip.options().end(); ++it) {
+            unsigned t = ip_opt_type(it->option());
+            if (t == 0) { ++eol; continue; }
+            if (!opts.empty()) opts += ",";
+            std::ostringstream o;
+            o << t << ":" << it->length_field() << ":" << vh::to_hex(it->data_ptr(), it->data_size());
+            opts += o.str();
+        }
+        if (opts.empty()) opts = "-";
+        out = FieldDump().num("version", uint32_t(ip.version())).num("~head_len", uint32_t(ip.head_len())).num("tos", ip.tos())
+                  .num("~tot_len", ip.tot_len()).num("id", ip.id()).num("flags", uint32_t(ip.flags()))
+                  .num("fragment_offset", uint32_t(ip.fragment_offset())).num("ttl", ip.ttl()).num("^protocol", ip.protocol())
+                  .num("~checksum", ip.checksum()).str("src_addr", hex_of(ip.src_addr())).str("dst_addr", hex_of(ip.dst_addr()))
+                  .str("opts", opts).num("~eol", eol)
+                  .str("security", ip_typed([&]() -> std::string {
+                      IP::security_type s = ip.security();
+                      std::ostringstream o;
+                      o << s.security << "." << s.compartments << "." << s.handling_restrictions << "."
+                        << uint32_t(s.transmission_control);
+                      return o.str(); }))
+                  .str("stream_identifier", ip_typed([&]() -> std::string {
+                      std::ostringstream o; o << ip.stream_identifier(); return o.str(); }))
+                  .str("lsrr", ip_typed([&]() -> std::string { return ip_route_str(ip.lsrr()); }))
+                  .str("ssrr", ip_typed([&]() -> std::string { return ip_route_str(ip.ssrr()); }))
+                  .str("record_route", ip_typed([&]() -> std::string { return ip_route_str(ip.record_route()); }))
+                  .done();
+        return true;
+    }
+    case PDU::IPSEC_AH: {
+        const IPSecAH& a = static_cast<const IPSecAH&>(p);
+        out = FieldDump().num("^next_header", a.next_header()).num("~length", a.length()).num("spi", a.spi())
+                  .num("seq_number", a.seq_number()).str("icv", vh::to_hex(a.icv())).done();
+        return true;
+    }
+    case PDU::IPSEC_ESP: {
+        const IPSecESP& e = static_cast<const IPSecESP&>(p);
+        out = FieldDump().num("spi", e.spi()).num("seq_number", e.seq_number()).done();
+        return true;
+    }
+    default:
+        return false;
+    }
+}
+
+inline PDU* ip_mk(const std::string& cls, const std::vector<std::string>& a) {
+    if (cls == "IP") {
+        IPv4Address d, s;
+        if (a.size() == 2 && ip_addr_arg(a[0], d) && ip_addr_arg(a[1], s)) return new IP(d, s);
+        return new IP();
+    }
+    if (cls == "IPSecAH") return new IPSecAH();
+    if (cls == "IPSecESP") return new IPSecESP();
+    return 0;
+}
+
+inline bool ip_route_arg(const std::string& ptr, const std::string& list, IP::generic_route_option_type& out) {
+    bytes b;
+    if (!ip_hex(list, b) || b.size() % 4 != 0) return false;
+    out.pointer = uint8_t(ip_num(ptr));
+    for (size_t i = 0; i < b.size(); i += 4) {
+        uint32_t v;
+        memcpy(&v, &b[i], 4);
+        out.routes.push_back(IPv4Address(v));
+    }
+    return true;
+}
+
+inline bool ip_apply(PDU& p, const std::vector<std::string>& op) {
+    const size_t n = op.size();
+    switch (p.pdu_type()) {
+    case PDU::IP: {
+        IP& ip = static_cast<IP&>(p);
+        if (n == 1 && op[0] == "eol") { ip.eol(); return true; }
+        if (n == 1 && op[0] == "noop") { ip.noop(); return true; }
+        if (n == 3 && op[0] == "add_option") {
+            bytes b;
+            if (!ip_hex(op[2], b)) return false;
+            ip.add_option(IP::option(IP::option_identifier(uint8_t(ip_num(op[1]))), b.begin(), b.end()));
+            return true;
+        }
+        if (n == 4 && op[0] == "add_option_len") {
+            bytes b;
+            if (!ip_hex(op[3], b)) return false;
+            const IP::option o(IP::option_identifier(uint8_t(ip_num(op[1]))), uint16_t(ip_num(op[2])), b.begin(), b.end());
+            ip.add_option(o);                                  // the `add_option(const option&)` overload
+            return true;
+        }
+        if (n == 2 && op[0] == "remove_option") {
+            ip.remove_option(IP::option_identifier(uint8_t(ip_num(op[1]))));
+            return true;
+        }
+        if (n == 5 && op[0] == "security") {
+            ip.security(IP::security_type(uint16_t(ip_num(op[1])), uint16_t(ip_num(op[2])), uint16_t(ip_num(op[3])),
+                                          uint32_t(ip_num(op[4]) & 0xffffff)));
+            return true;
+        }
+        if (n == 3 && (op[0] == "lsrr" || op[0] == "ssrr" || op[0] == "record_route")) {
+            IP::generic_route_option_type r;
+            if (!ip_route_arg(op[1], op[2], r)) return false;
+            if (op[0] == "lsrr") ip.lsrr(r);
+            else if (op[0] == "ssrr") ip.ssrr(r);
+            else ip.record_route(r);
+            return true;
+        }
+        if (n != 2) return false;
+        if (op[0] == "src_addr" || op[0] == "dst_addr") {
+            IPv4Address a;
+            if (!ip_addr_arg(op[1], a)) return false;
+            if (op[0] == "src_addr") ip.src_addr(a); else ip.dst_addr(a);
+            return true;
+        }
+        unsigned long v = ip_num(op[1]);
+        if (op[0] == "tos") { ip.tos(uint8_t(v)); return true; }
+        if (op[0] == "id") { ip.id(uint16_t(v)); return true; }
+        if (op[0] == "fragment_offset") { ip.fragment_offset(uint16_t(v & 0x1fff)); return true; }
+        if (op[0] == "flags") { ip.flags(IP::Flags(v & 7)); return true; }
+        if (op[0] == "ttl") { ip.ttl(uint8_t(v)); return true; }
+        if (op[0] == "protocol") { ip.protocol(uint8_t(v)); return true; }
+        if (op[0] == "version") { ip.version(uint8_t(v & 15)); return true; }
+        if (op[0] == "stream_identifier") { ip.stream_identifier(uint16_t(v)); return true; }
+        return false;
+    }
+    case PDU::IPSEC_AH: {
+        IPSecAH& a = static_cast<IPSecAH&>(p);
+        if (n != 2) return false;
+        if (op[0] == "icv") {
+            bytes b;
+            if (!ip_hex(op[1], b)) return false;
+            a.icv(b);
+            return true;
+        }
+        unsigned long v = ip_num(op[1]);
+        if (op[0] == "next_header") { a.next_header(uint8_t(v)); return true; }
+        if (op[0] == "length") { a.length(uint8_t(v)); return true; }
+        if (op[0] == "spi") { a.spi(uint32_t(v)); return true; }
+        if (op[0] == "seq_number") { a.seq_number(uint32_t(v)); return true; }
+        return false;
+    }
+    case PDU::IPSEC_ESP: {
+        IPSecESP& e = static_cast<IPSecESP&>(p);
+        if (n != 2) return false;
+        unsigned long v = ip_num(op[1]);
+        if (op[0] == "spi") { e.spi(uint32_t(v)); return true; }
+        if (op[0] == "seq_number") { e.seq_number(uint32_t(v)); return true; }
+        return false;
+    }
+    default:
+        return false;
+    }
+}
+
+// read-only accessors that can fail (C01): the typed option getters on every IP packet, every typed decoder on every
+// option present, option searches for identifiers present and absent, the fragment test
+inline bool ip_sweep(const PDU& p, std::string& out) {
+    if (p.pdu_type() != PDU::IP) return false;
+    const IP& ip = static_cast<const IP&>(p);
+    sweep_item(out, "security", [&] { ip.security(); });
+    sweep_item(out, "stream_identifier", [&] { ip.stream_identifier(); });
+    sweep_item(out, "lsrr", [&] { ip.lsrr(); });
+    sweep_item(out, "ssrr", [&] { ip.ssrr(); });
+    sweep_item(out, "record_route", [&] { ip.record_route(); });
+    sweep_item(out, "is_fragmented", [&] { ip.is_fragmented(); });
+    sweep_item(out, "advertised_size", [&] { ip.advertised_size(); });
+    for (unsigned t = 0; t < 256; t += 17)
+        sweep_item(out, "search", [&] { ip.search_option(IP::option_identifier(uint8_t(t))); });
+    for (IP::options_type::const_iterator it = ip.options().begin(); it != ip.options().end(); ++it) {
+        sweep_item(out, "opt.search", [&] {
+            if (!ip.search_option(it->option())) throw std::runtime_error("option present but not found");
+        });
+        sweep_item(out, "opt.to_security", [&] { it->to<IP::security_type>(); });
+        sweep_item(out, "opt.to_route", [&] { it->to<IP::generic_route_option_type>(); });
+        sweep_item(out, "opt.to_u16", [&] { it->to<uint16_t>(); });
+        sweep_item(out, "opt.to_u32", [&] { it->to<uint32_t>(); });
+        sweep_item(out, "opt.to_ipv4", [&] { it->to<IPv4Address>(); });
+    }
+    return true;
+}
+
 } // namespace wire
